@@ -6,11 +6,13 @@ EXTENDS O2OSyntax, TLC, Json
 Keyword == {"vars", "at", "iat", "nat"}
 Tails == {"-", "upd", "ret", "dflt"}
 VARIABLE p
-Init == \E n \in TraitNames, dt \in {"struct", "enum"}, t \in Tails :
+\* gh: the struct also carries a type-level #[ghosts(..)] (its lines and the `..expr` / post-init fragments share one body)
+Init == \E n \in TraitNames, dt \in {"struct", "enum"}, t \in Tails, gh \in BOOLEAN :
+           /\ (gh => dt = "struct")
            /\ (t = "dflt" => dt = "enum") /\ (t = "upd" => dt = "struct")
            \* `..expr` and `_ => expr` complete a value that is being constructed; into_existing constructs none (DESIGN 8)
            /\ (t \in {"upd", "dflt"} => Appl(n) \cap {"OIE", "RIE"} = {})
-           /\ p = [n |-> n, dt |-> dt, ps |-> <<>>, tail |-> t]
+           /\ p = [n |-> n, dt |-> dt, ps |-> <<>>, tail |-> t, gh |-> gh]
 Add(k) == /\ k \notin {p.ps[i] : i \in DOMAIN p.ps}
           /\ p' = [p EXCEPT !.ps = Append(@, k)]
 Next == \E k \in Keyword : Add(k)
